@@ -74,7 +74,10 @@ JudgeP(e) ==
       cntIn == IF e.ndim = 0 THEN 1 ELSE n * Dim
   IN
   IF e.res = "hang" THEN "P:returns"
-  ELSE IF e.res = "raise" THEN "P:no-exception-at-a-well-formed-point"
+  ELSE IF e.res = "raise" THEN
+     \* invalid distribution parameters at a query point (not decided) may be rejected by the distribution
+     IF e.op # "rvs" /\ \E i \in 1..n : ~JointDefined(D, Names, e.rows[i], u) THEN "ok"
+     ELSE "P:no-exception-at-a-well-formed-point"
   ELSE IF e.op \in {"pdf", "logpdf"} THEN
      IF e.shape # SpecShapeEval(e.ndim, cntIn, Dim) \/ Len(e.vals) # n THEN "P:shape"
      ELSE FirstBad([i \in 1..n |-> IF e.op = "pdf" THEN JudgePdfRow(e.rows[i], e.vals[i]) ELSE JudgeLogRow(e.rows[i], e.vals[i])])
